@@ -48,3 +48,41 @@ Qed.
 Example C11_nonvacuous :
   build ex_fcal ex_env Checked (@rev _) (rev ex_banks) = Ok ex_event.
 Proof. vm_compute. reflexivity. Qed.
+
+(* ===== end-to-end model (coq/Event/E2E.v): the run number and the RAW (bank name bytes, data bytes) list, decoded by
+   the models of C02-C06/C08, calibrated with the tables regenerated into Gen/Calib.v, assembled by Event.build. The only
+   hypothesis left is that the data are bytes. ===== *)
+From Coq Require Import Permutation.
+From AG Require Import Base.Prelude Base.Res Base.Bytes Ident.Tables.
+From AG Require Codec.Adc Codec.Chunk Codec.Reasm Codec.Pwb Codec.Trg Ident.Names Ident.Maps.
+From AG Require Import Event.Event Event.EventSpec Event.E2E Event.E2E_proofs.
+
+(* =============================================================================================== C11 *)
+(* for every run the wire map of the composed environment is one-to-one (C08) ... *)
+Theorem C11_e2e_wire_pos_injective : forall (F : Type) (gain_of : Z * Z -> F) (m : ovf) (run : N), wire_pos_injective (env_e2e_m gain_of m run).
+Proof. exact e2e_wire_pos_injective. Qed.
+Print Assumptions C11_e2e_wire_pos_injective.
+(* ... and its reassembly does not depend on the arrival order of the chunks (C04) *)
+Theorem C11_e2e_reasm_perm : forall (F : Type) (gain_of : Z * Z -> F) (m : ovf) (run : N), reasm_perm (env_e2e_m gain_of m run).
+Proof. exact e2e_reasm_perm. Qed.
+Print Assumptions C11_e2e_reasm_perm.
+
+(* hence: any permutation of the RAW bank list and any two HashMap iteration orders succeed or fail alike and on
+   success give the same event (timestamp, every wire slot, every pad slot) *)
+Theorem C11_e2e_build_perm_invariant : forall (F : Type) (fcal : Z -> F -> F) (gain_of : Z * Z -> F) (m : ovf) (run : N) (banks banks' : list (list N * list N))
+    (order order' : list (list chunkv) -> list (list chunkv)),
+  Forall bytes (map snd banks) -> Permutation banks banks' -> is_order order -> is_order order' ->
+  is_ok (try_from_banks_model fcal gain_of m run banks order) = is_ok (try_from_banks_model fcal gain_of m run banks' order') /\
+  (forall ev ev', try_from_banks_model fcal gain_of m run banks order = Ok ev ->
+                  try_from_banks_model fcal gain_of m run banks' order' = Ok ev' -> ev_eq ev ev').
+Proof. exact e2e_build_perm_invariant. Qed.
+Print Assumptions C11_e2e_build_perm_invariant.
+
+Theorem C11_e2e_group_order_irrelevant : forall (F : Type) (fcal : Z -> F -> F) (gain_of : Z * Z -> F) (m : ovf) (run : N) (banks : list (list N * list N))
+    (order order' : list (list chunkv) -> list (list chunkv)),
+  Forall bytes (map snd banks) -> is_order order -> is_order order' ->
+  is_ok (try_from_banks_model fcal gain_of m run banks order) = is_ok (try_from_banks_model fcal gain_of m run banks order') /\
+  (forall ev ev', try_from_banks_model fcal gain_of m run banks order = Ok ev ->
+                  try_from_banks_model fcal gain_of m run banks order' = Ok ev' -> ev_eq ev ev').
+Proof. exact e2e_group_order_irrelevant. Qed.
+Print Assumptions C11_e2e_group_order_irrelevant.
